@@ -425,6 +425,12 @@ class Network(Cached):
         # invalidate cache
         self._mut_A += 1
 
+        # node weights given for a network of another order cannot be kept:
+        # fall back to unit weights
+        if getattr(self, "_node_weights", None) is not None \
+                and len(self._node_weights) != N:
+            self.node_weights = None
+
     def set_edge_list(self, edge_list, n_nodes=None):
         """
         Reset network from an edge list representation.
